@@ -19,7 +19,7 @@ func init() {
 		Run:   runC08,
 		Explanation: "Decides clauses C08.1-C08.5 of DESIGN.md: (1) the revision data is a projection of spec.template only: the value marshalled by the patch builder is a fresh map whose entries have constant keys and whose only non-constant leaf is the sub-tree read from the encoded set under the constant key path spec -> template, into which only \"$patch\":\"replace\" is stored; " +
 			"(2) revision equality and both hash functions read only the revision's Data (and the hash label): annotations, other labels and metadata play no role; (3) in the function that picks the revisions, the revision Create is reached only with no equal revision among the listed ones, the renumbering Update only with an equal one that is not the newest, with the candidate's next revision number, and no other revision write is reachable; " +
-			"(4) the create loop's effect set is {Create, Get}: a name collision never overwrites; the existing object is returned only under byte-equal data, otherwise the collision counter is incremented and the create retried; (5) status.updateRevision is assigned once, from the chosen update revision's name. NOT decided: that applying the stored patch reproduces the template exactly for all templates (round-trip equality).",
+			"(4) the create loop's effect set is {Create, Get}: a name collision never overwrites; the existing object is returned only under byte-equal data, otherwise the collision counter is incremented and the create retried; (5) status.updateRevision is assigned once, from the chosen update revision's name. (6) the update-revision variable only takes the candidate, a create/renumber result or the newest listed revision; the collision counter changes only where the existing revision's data differs from the candidate's; history truncation keeps the revisions this reconcile computed (C13.1/C13.2 as clauses). NOT decided: that applying the stored patch reproduces the template exactly for all templates (round-trip equality).",
 	})
 }
 
